@@ -183,7 +183,73 @@ def shards(tier, seed):
             out.append({'space': 'offsets', 'k': k, 'part': j, 'of': parts, 'tier': tier, 'seed': seed})
     # deterministic; many-chromosome shards first so that the pool's tail is short
     out.sort(key=lambda d: (-len(d.get('names', [])) if d['space'] == 'ops' else 0, json.dumps(d, sort_keys=True)))
+    for dt in NARROW_DTYPES:
+        out.append({'space': 'dtype', 'dtype': dt, 'tier': tier, 'seed': seed})
     return out
+
+
+# Coordinate columns keep the integer dtype they are given (int32 in BAM, uint8 / int16 from user arrays).  Genomes whose
+# every chromosome fits the dtype but whose CONCATENATED length does not: three chromosomes of 0.45 x (dtype range), an
+# interval at the first base, the middle and the last base of each; the concatenated-coordinate operations are compared
+# with the same intervals in int64 and with the per-chromosome definition (run-length observation, nothing dense).
+NARROW_DTYPES = ['int8', 'uint8', 'int16', 'uint16', 'int32', 'uint32', 'int64']
+
+
+def check_dtype(res, dtname):
+    import bionumpy as bnp
+    from bionumpy.datatypes import Interval
+    from bionumpy.genomic_data.geometry import Geometry
+    dt = np.dtype(dtname)
+    top = int(np.iinfo(dt).max) if dtname != 'int64' else 2 ** 40
+    S = int(0.45 * (top + 1))
+    names = ['chr1', 'chr2', 'chr3']
+    sizes = {n: S for n in names}
+    mid = S // 2
+    rows = []
+    for n in names:
+        rows += [(n, 0, 1), (n, mid, mid + 2), (n, S - 1, S)]
+    feats0 = {'space': 'dtype', 'coordinate_dtype': dtname, 'concatenated_length_exceeds_dtype': dtname != 'int64'}
+    g = bnp.Genome.from_dict(sizes)
+    geo = Geometry(sizes)
+
+    def table(dtype):
+        return Interval([r[0] for r in rows], np.array([r[1] for r in rows], dtype=dtype), np.array([r[2] for r in rows], dtype=dtype))
+
+    def data_rows(t, with_value=False):
+        ch = chrom_names(t.chromosome)
+        out = [(ch[i], int(t.start[i]), int(t.stop[i])) + ((observe.norm(np.asarray(t.value)[i]),) if with_value else ()) for i in range(len(t))]
+        return out
+
+    exp_mask = [r for r in rows]
+    ops = [('g.mask_data', lambda t: data_rows(g.get_intervals(t).get_mask().get_data()), exp_mask),
+           ('g.pileup_data', lambda t: [r for r in data_rows(g.get_intervals(t).get_pileup().get_data(), True) if r[3] != 0],
+            [r + (1,) for r in rows]),
+           ('geo.mask_data', lambda t: data_rows(geo.get_mask(t).get_data()), exp_mask),
+           ('geo.pileup_sum', lambda t: int(np.sum(geo.get_pileup(t))), sum(b - a for _, a, b in rows)),
+           ('g.mask_sum', lambda t: int(g.get_intervals(t).get_mask().sum()), sum(b - a for _, a, b in rows))]
+    for op, call, want in ops:
+        case = {'space': 'dtype', 'dtype': dtname, 'op': op}
+        res.evaluations += 1
+        res.states += 1
+        res.planned += 1
+        res.traces += 1
+        res.transitions += 1
+        res.nontrivial += 1
+        try:
+            got = call(table(dt))
+        except observe.ObserverError:
+            raise
+        except Exception as e:
+            res.fail('narrow-coordinate-dtype:raises', case, dict(feats0, op=op), expected=want if not isinstance(want, list) else want[:4],
+                     observed=exc_name(e) + ': ' + str(e)[:200], tb=tb_string(e))
+            res.outcome('dtype:%s:raises' % dtname)
+            continue
+        if got != want:
+            res.fail('narrow-coordinate-dtype:differs-from-per-chromosome-definition', case, dict(feats0, op=op),
+                     expected=want if not isinstance(want, list) else want[:9], observed=got if not isinstance(got, list) else got[:9])
+            res.outcome('dtype:%s:differs' % dtname)
+        else:
+            res.outcome('dtype:%s:ok' % dtname)
 
 
 # =====================================================================================================
@@ -1029,7 +1095,9 @@ def run_shard(desc, deadline):
     scratch = tempfile.mkdtemp(prefix='c10_', dir='/dev/shm')
     t0 = time.process_time()
     try:
-        if desc['space'] == 'offsets':
+        if desc['space'] == 'dtype':
+            check_dtype(res, desc['dtype'])
+        elif desc['space'] == 'offsets':
             _run_offsets(res, desc, deadline, scratch)
         else:
             _run_ops(res, desc, deadline, scratch)
@@ -1079,6 +1147,11 @@ def replay_case(case):
     res = Result()
     scratch = tempfile.mkdtemp(prefix='c10_', dir='/dev/shm')
     try:
+        if case.get('space') == 'dtype':
+            check_dtype(res, case['dtype'])
+            return [{'kind': g['kind'], 'features': g['features'], 'observed': g['exemplars'][0]['observed'],
+                     'expected': g['exemplars'][0]['expected'], 'traceback': g['exemplars'][0]['traceback']}
+                    for g in res.fail_groups.values() if g['exemplars'][0]['case'].get('op') == case.get('op')]
         if case.get('space') == 'offsets':
             check_offsets(res, tuple(case['names']), tuple(case['sizes']), case['mode'], scratch, with_file=True)
         else:
@@ -1132,6 +1205,9 @@ REPRO_CALL = {
 
 
 def repro_py(case):
+    if case.get('space') == 'dtype':
+        return ('import numpy as np, bionumpy as bnp\n# coordinates of dtype %s on three chromosomes of 0.45 x its range: see check_dtype() in '
+                'checks/c10_genome_boundaries.py (operation %s)\n' % (case['dtype'], case.get('op')))
     if case.get('space') == 'offsets':
         return ('import numpy as np, bionumpy as bnp\n'
                 'from bionumpy.genomic_data.genome_context import GenomeContext\n'
